@@ -134,6 +134,7 @@ pub fn run(part: &mut Part) {
                     all_seeds_prof(a_full(), 2, q),
                     prof("queues a,b created x special payload sizes", vec![seed_ab()], a_sizes(), if q { 3 } else { 4 }),
                     prof("sliding window of records longer than a block x (appends around a block, truncates)", sliding_window_seeds(), a_window(), if q { 3 } else { 5 }),
+                    prof("long queue of 400-600 byte records x A_full", vec![seed_hoarder_big(140)], a_full(), if q { 2 } else { 3 }),
                 ]
             } else {
                 vec![prof("queues a,b created x special payload sizes", vec![seed_ab()], a_sizes(), if q { 2 } else { 3 }),
@@ -346,11 +347,13 @@ pub fn run(part: &mut Part) {
                     prof("structural seeds x A_full", structural_seeds(), a_full(), if q { 3 } else { 4 }),
                     prof("big-buffer seeds x A_full", vec![seed_big_buffer(QA), seed_big_buffer(QB)], a_full(), if q { 2 } else { 3 }),
                     all_seeds_prof(a_full(), 2, q),
+                    prof("long queues of 400-600 byte records x A_full", vec![seed_hoarder_big(70), seed_hoarder_big(140)], a_full(), if q { 2 } else { 3 }),
                 ]
             } else {
                 let mut s = vec![seed_empty(), seed_big_buffer(QA)];
                 s.extend(structural_seeds());
-                vec![prof("empty+structural+big-buffer x A_full", s, a_full(), if q { 1 } else { 2 })]
+                vec![prof("empty+structural+big-buffer x A_full", s, a_full(), if q { 1 } else { 2 }),
+                    prof("long queues of 400-600 byte records x A_full", vec![seed_hoarder_big(70), seed_hoarder_big(140)], a_full(), if q { 2 } else { 3 })]
             };
             let mon = Monitors { property: "C16", c16: true, ..Default::default() };
             run_seq(part, profiles, vec![mon]);
